@@ -134,7 +134,7 @@ func init() {
 		Rule: "case = (matcher, filter configuration, complete first message) from per-protocol generators: well-formed messages over the full field ranges, " +
 			"single-field corruptions, and filter configurations; oracle: real matcher verdict on the complete message == independent reference predicate " +
 			"(want=true requires a match; want=false accepts no-match, error or need-more). non-trivial = the reference did not abstain; " +
-			"distinct = hash(matcher, class, config, input). every fourth case gives the string options that the matcher documents as placeholder-capable (winbox, rdp, regexp, dns rules, ip ranges, openvpn) as {env.NAME} placeholders of variables set in the process: same verdict expected.",
+			"distinct = hash(matcher, class, config, input). every fourth case gives the string options that the matcher documents as placeholder-capable (winbox, rdp, regexp, dns rules, ip ranges, openvpn) as {env.NAME} placeholders of variables set in the process: same verdict expected. remote_ip / local_ip cases are evaluated once more on a connection that wraps one with other addresses which the matcher had evaluated before (what proxy_protocol does to a connection): same verdict as on a fresh connection.",
 		Assumptions: []string{
 			"reference predicates are hand-written from the wire definitions cited by the modules (DESIGN.md appendix B); agreement shows consistency with that reading",
 			"inputs for which the reference is not authoritative are abstentions (counted, not judged)",
@@ -251,6 +251,36 @@ func judge(c *fw.Ctx, cache map[string]*loaded, cs *Case) {
 				fmt.Sprintf("matcher %s with config %s on input %s: %s on a fresh connection, %s after a %s matcher with config %s had evaluated the same connection", cs.Matcher, cs.Config, trimHex(cs.InputHex), v, v2, cs.Matcher, pl.cfg), cs)
 		}
 	}
+	// address matchers: the connection a matcher sees may be the one a handler (proxy_protocol) put in place of the
+	// accepted one, after address matchers already looked at the accepted one. The verdict is about the addresses of the
+	// connection at hand: evaluated on a connection with other addresses first, then - wrapped with this case's addresses -
+	// again, the matcher answers as on a fresh connection.
+	if (cs.Matcher == "remote_ip" || cs.Matcher == "local_ip") && v != "panic" {
+		var v3 mt.Verdict
+		func() {
+			defer func() {
+				if r := recover(); r != nil {
+					v3 = v
+				}
+			}()
+			o := cs.opts()
+			want := mt.Opts{UDP: o.UDP, Local: o.Local, Remote: o.Remote}
+			o.Remote, o.Local = parseAddr("203.0.113.99:40000", cs.UDP), parseAddr("203.0.113.1:443", cs.UDP)
+			if strings.Contains(cs.Remote, ":") && strings.Count(cs.Remote, ":") > 1 { // the other family now and then
+				o.Remote, o.Local = parseAddr("[2001:db8:99::99]:40000", cs.UDP), parseAddr("[2001:db8:99::1]:443", cs.UDP)
+			}
+			cx, _ := mt.NewConn(cs.Input, o)
+			_, _ = l.m.EvalOn(cx)
+			ref, _ := mt.NewConn(cs.Input, want) // (a connection that reports this case's addresses)
+			cx2 := cx.Wrap(addrConn{Conn: cx, local: ref.LocalAddr(), remote: ref.RemoteAddr()})
+			v3, _ = l.m.EvalOn(cx2)
+		}()
+		c.Obs("address_change_evaluations", 1)
+		if v3 != v {
+			c.Violation(fmt.Sprintf("C14 %s: verdict does not follow the connection's address after a handler replaced the connection", cs.Matcher),
+				fmt.Sprintf("matcher %s with config %s: %s on a fresh connection from %s, %s on a connection that reports the same addresses but wraps one (from 203.0.113.99 / 2001:db8:99::99) which the matcher had evaluated before", cs.Matcher, cs.Config, v, cs.Remote, v3), cs)
+		}
+	}
 	prevLoaded[cs.Matcher] = l
 	ok := (cs.Want && v == mt.Yes) || (!cs.Want && (v == mt.No || v == mt.Err || v == mt.More))
 	if v == "panic" {
@@ -274,6 +304,15 @@ func judge(c *fw.Ctx, cache map[string]*loaded, cs *Case) {
 			fmt.Sprintf("matcher %s with config %s on input %s (%s): reference verdict %s, real verdict %s %s", cs.Matcher, cs.Config, trimHex(cs.InputHex), cs.Note, wantWord(cs.Want), v, es), cs)
 	}
 }
+
+// addrConn reports other addresses than the connection it wraps (what the proxy_protocol handler's connection does).
+type addrConn struct {
+	net.Conn
+	local, remote net.Addr
+}
+
+func (a addrConn) LocalAddr() net.Addr  { return a.local }
+func (a addrConn) RemoteAddr() net.Addr { return a.remote }
 
 func wantWord(b bool) string {
 	if b {
